@@ -193,9 +193,10 @@ def gen_stops(rng, n, tier):
             xs.append(x)
         zs = [rng.choice([0, 0, 0, 3, 50, -20]) for _ in range(k)]        # heights (a lift, a ramp): the size of a stop is planimetric
         ts = [0]
+        sub = rng.random() < 0.3                        # a 2 Hz / 4 Hz receiver: instants with a sub-second part (durations are compared as they are, not truncated to seconds)
         for _ in range(k - 1):
-            ts.append(ts[-1] + rng.choice([5, 10, 10, 20, 60]))
-        out.append({'x': xs, 'z': zs, 't': ts, 'diameter': rng.choice([2.5, 4.5, 10.5]), 'duration': rng.choice([7.5, 15.5, 25.5, 65.5])})
+            ts.append(ts[-1] + (rng.choice([5, 10, 10, 20, 60]) if not sub else rng.choice([0.5, 1.5, 2.5, 0.75, 5.25, 10.5, 3.5])))
+        out.append({'x': xs, 'z': zs, 't': ts, 'diameter': rng.choice([2.5, 4.5, 10.5]) if not frac else rng.choice([2.6, 4.4, 10.3]), 'duration': rng.choice([7.5, 15.5, 25.5, 65.5]) if not sub else rng.choice([3.1, 5.2, 7.6, 2.1, 10.1])})      # (never a multiple of a quarter second: no tie with a span)
         if rng.random() < 0.3:                          # the documented speed-up: the criterion then applies to the track resampled to size / downsampling points
             down = rng.choice([2, 2, 3])
             xs = []; ts = []; x = 0; t = 0                  # a longer track with lingering phases of a few fixes, so that stops survive the down-sampling
@@ -246,6 +247,9 @@ def run_stops(case):
             return {'skipped': 'the track cannot be resampled'}
         if len(extra['dx']) < 3 or any(abs((b - a) - case['duration']) < 1e-6 for a in extra['dt'] for b in extra['dt']):
             return {'skipped': 'too short, or a span within rounding of the duration'}
+        dx = extra['dx']
+        if any(abs((max(dx[i:j]) - min(dx[i:j])) - case['diameter']) < 1e-6 for i in range(len(dx)) for j in range(i + 1, len(dx) + 1)):
+            return {'skipped': 'an extent of interpolated positions within rounding of the diameter'}
     for seed in case.get('seeds', range(6)):        # the enclosing-circle routine draws random numbers: the result must not depend on them
         random.seed(seed)
         st = sg.findStopsGlobal(tr, case['diameter'], case['duration'], down, False)
